@@ -115,7 +115,7 @@ def families(tier='quick'):
          fam_prec([1, 2, 3, 4, 5, 6, 7, 8, 9], 'prec9levels'),
          fam_prec([INT_MIN, -70000, -32769, -1, 32767, 32768, 65536, 70000, INT_MAX], 'precwide'),
          fam_prec([-32768, 32768, 65535, 65537, 131072], 'prec16bit'),
-         fam_recover(63), fam_recover(129), fam_states(6, 64), fam_terms(258, strings=True), fam_long(257)]
+         fam_recover(63), fam_recover(129), fam_states(6, 64), fam_terms(258, strings=True), fam_long(257), fam_nterms(258)]
     if tier != 'quick':
         F += [fam_terms(61), fam_terms(126), fam_terms(127), fam_terms(128), fam_terms(129), fam_terms(200), fam_terms(140, True), fam_terms(200, True),
               fam_rules(254), fam_rules(255), fam_rules(258), fam_rules(300), fam_nterms(130), fam_long(65), fam_recover(65), fam_recover(200), fam_states(7, 64), fam_terms(300, dense=False, strings=True), fam_terms(520, strings=True), fam_long(300)]
